@@ -235,6 +235,16 @@ func (e *enc) loopEnv(fr *frame, h *ssa.BasicBlock, phiVals map[*ssa.Phi]Term, m
 		}
 	}
 	env.locals = func(name string) (tval, bool) { return e.lookupLocal(fr, h, phiVals, mem, name) }
+	// pointer variables bound to a composite literal kept in a local cell (p := &T{...} whose address does not escape)
+	for name, v := range fr.curNames {
+		if a, ok := v.(*ssa.Alloc); ok && a.Comment != name {
+			if l, ok := fr.loc[a]; ok && l.ref == "" && l.ty != nil {
+				if _, shadow := env.ptrLoc[name]; !shadow {
+					env.ptrLoc[name] = l
+				}
+			}
+		}
+	}
 	env.hash = func(name string) (Term, bool) {
 		if strings.HasPrefix(name, "i") && len(name) > 1 {
 			// #i<k>: completed iterations of the enclosing range loop with ordinal k
